@@ -37,6 +37,9 @@ type PartSpec struct {
 	SigKind   string `json:"sig_kind"`   // genuine | zero | truncpad | random | inf | otherkey | badlen95 | badlen0 | badlen97
 	Tag       int    `json:"tag"`        // attestation ValidatorIndex (0 = nil)
 	Raw       bool   `json:"raw"`        // the object is a bare core.Signature
+	// ForkEpoch > 0: the signature is made over the object root wrapped with the domain of the fork
+	// active at this epoch (whatever epoch the object itself names; no genesis rule for the builder domain).
+	ForkEpoch uint64 `json:"fork_epoch"`
 }
 
 // ValSpec is one validator's entry of the batch.
@@ -59,6 +62,11 @@ type CaseSpec struct {
 	// Cancel: the context passed to Aggregate is cancelled -- 0 never, 1 before the call,
 	// k+1 right after the k-th invocation of the (wrapped) verifier.
 	Cancel int `json:"cancel"`
+	// Epoch of the objects (0: the default epoch 3).
+	Epoch uint64 `json:"epoch"`
+	// Seq > 0: the call belongs to sequence Seq: ONE aggregator with ONE verifier (sigagg.NewVerifier)
+	// lives through all calls of the sequence, in order, as in production.
+	Seq int `json:"seq"`
 }
 
 // PubObs is one object observed at a subscriber.
@@ -76,6 +84,8 @@ type Case struct {
 	Err        string     `json:"err"` // error class, "" = nil
 	ErrText    string     `json:"err_text"`
 	Calls      [][]PubObs `json:"calls"`
+	Pos        int        `json:"pos"`   // position of the call in its sequence
+	Prev       []string   `json:"prev"`  // the previous calls of the sequence: "type@epoch"
 	Label      string     `json:"label"` // Coq term of type label N
 	NonTrivial bool       `json:"nontrivial"`
 }
@@ -97,6 +107,25 @@ type env struct {
 	keys  map[[3]int]keyset // (v, n, t)
 	other tbls.PrivateKey
 	r     *rand.Rand
+	// long-lived aggregator of the current sequence; its subscribers and verifier dispatch to the hooks
+	seqID     int
+	seqT      int
+	seqAgg    *sigagg.Aggregator
+	seqHist   [][2]uint64 // (type id, epoch) of the calls made so far
+	seqPrev   []string
+	seqVerify func(context.Context, core.PubKey, core.SignedData) error
+	onSub     func(si int, out core.SignedDataSet) error
+	onVerify  func(ctx context.Context, pk core.PubKey, sd core.SignedData) error
+}
+
+func (e *env) typeID(name string) uint64 {
+	for i, n := range e.names {
+		if n == name {
+			return uint64(i + 1)
+		}
+	}
+
+	return 0
 }
 
 func newEnv(t *testing.T) *env {
@@ -208,7 +237,11 @@ func (e *env) run(spec CaseSpec) Case {
 	if !ok {
 		e.t.Fatalf("unknown type %q", spec.Type)
 	}
-	slot := uint64(3*e.spe + 5)
+	epoch := spec.Epoch
+	if epoch == 0 {
+		epoch = 3
+	}
+	slot := epoch*e.spe + 5
 
 	// contents used by the case
 	contents := map[int]*content{}
@@ -241,6 +274,24 @@ func (e *env) run(spec CaseSpec) Case {
 		return ct
 	}
 	rootID := func(cl, variant int) int { return 100*variant + cl + 1 }
+	forkRoots := map[[2]uint64][32]byte{}
+	forkRoot := func(cl int, fe uint64) [32]byte { // content cl wrapped with the domain of the fork active at epoch fe
+		k := [2]uint64{uint64(cl), fe}
+		if r, ok := forkRoots[k]; ok {
+			return r
+		}
+		dom, _, oroot, err := g.Parts(getContent(cl).raw, e.spe)
+		if err != nil {
+			e.t.Fatal(err)
+		}
+		r, err := dutygen.SigningRootForkAt(e.ctx, e.bmock, dom, oroot, eth2p0.Epoch(fe))
+		if err != nil {
+			e.t.Fatal(err)
+		}
+		forkRoots[k] = r
+
+		return r
+	}
 
 	set := map[core.PubKey][]core.ParSignedData{}
 	pkOf := map[core.PubKey]int{}
@@ -261,6 +312,9 @@ func (e *env) run(spec CaseSpec) Case {
 					e.t.Fatalf("no share %d", ps.Signer)
 				}
 				root := getContent(ps.SignOver).roots[ps.Variant]
+				if ps.ForkEpoch > 0 {
+					root = forkRoot(ps.SignOver, ps.ForkEpoch)
+				}
 				s, err := tbls.Sign(sk, root[:])
 				if err != nil {
 					e.t.Fatal(err)
@@ -273,7 +327,14 @@ func (e *env) run(spec CaseSpec) Case {
 			case "genuine":
 				s := genuine()
 				sig = s[:]
-				term = fmt.Sprintf("PSig %d %s %d", ps.SignerVal, coqZ(ps.Signer), rootID(ps.SignOver, ps.Variant))
+				rid := rootID(ps.SignOver, ps.Variant)
+				if ps.ForkEpoch > 0 {
+					rid = rootID(ps.SignOver, 0)
+					if forkRoot(ps.SignOver, ps.ForkEpoch) != getContent(ps.SignOver).roots[0] {
+						rid = 1000 + 10*int(ps.ForkEpoch) + ps.SignOver // another root: other fork's domain
+					}
+				}
+				term = fmt.Sprintf("PSig %d %s %d", ps.SignerVal, coqZ(ps.Signer), rid)
 			case "otherkey":
 				root := getContent(ps.SignOver).roots[0]
 				s, err := tbls.Sign(e.other, root[:])
@@ -362,9 +423,43 @@ func (e *env) run(spec CaseSpec) Case {
 	// (Aggregate itself never consults ctx: the outcome must not depend on it).
 	actx, cancel := context.WithCancel(e.ctx)
 	defer cancel()
-	realVerify := sigagg.NewVerifier(e.bmock)
 	verifyCalls := 0
-	agg, err := sigagg.New(spec.T, func(ctx context.Context, pk core.PubKey, sd core.SignedData) error {
+	var agg *sigagg.Aggregator
+	var realVerify func(context.Context, core.PubKey, core.SignedData) error
+	nsubs := len(spec.Subs)
+	fresh := spec.Seq == 0 || spec.Seq != e.seqID || spec.T != e.seqT
+	if fresh {
+		realVerify = sigagg.NewVerifier(e.bmock)
+		var err error
+		agg, err = sigagg.New(spec.T, func(ctx context.Context, pk core.PubKey, sd core.SignedData) error {
+			return e.onVerify(ctx, pk, sd)
+		})
+		if err != nil {
+			e.t.Fatal(err)
+		}
+		for si := 0; si < nsubs; si++ {
+			agg.Subscribe(func(_ context.Context, _ core.Duty, out core.SignedDataSet) error { return e.onSub(si, out) })
+		}
+		e.seqID, e.seqT, e.seqAgg, e.seqHist, e.seqPrev = 0, 0, nil, nil, nil
+		if spec.Seq != 0 {
+			e.seqID, e.seqT, e.seqAgg = spec.Seq, spec.T, agg
+			rv := realVerify
+			e.seqVerify = rv
+		}
+	} else {
+		agg, realVerify = e.seqAgg, e.seqVerify
+	}
+	c.Pos = len(e.seqHist)
+	c.Prev = append([]string(nil), e.seqPrev...)
+	var hist []string
+	for _, h := range e.seqHist {
+		hist = append(hist, fmt.Sprintf("(%d, %d)", h[0], h[1]))
+	}
+	if spec.Seq != 0 {
+		e.seqHist = append(e.seqHist, [2]uint64{e.typeID(spec.Type), epoch})
+		e.seqPrev = append(e.seqPrev, fmt.Sprintf("%s@%d", spec.Type, epoch))
+	}
+	e.onVerify = func(ctx context.Context, pk core.PubKey, sd core.SignedData) error {
 		verr := realVerify(context.WithoutCancel(ctx), pk, sd)
 		verifyCalls++
 		if spec.Cancel >= 2 && verifyCalls == spec.Cancel-1 {
@@ -372,15 +467,13 @@ func (e *env) run(spec CaseSpec) Case {
 		}
 
 		return verr
-	})
-	if err != nil {
-		e.t.Fatal(err)
 	}
 	if spec.Cancel == 1 {
 		cancel()
 	}
-	for si := range spec.Subs {
-		agg.Subscribe(func(_ context.Context, _ core.Duty, out core.SignedDataSet) error {
+	{
+		e.onSub = func(si int, out core.SignedDataSet) error {
+
 			var call []PubObs
 			for pk, sd := range out {
 				po := PubObs{V: -1, Kind: "KTyped", Content: 998}
@@ -434,7 +527,7 @@ func (e *env) run(spec CaseSpec) Case {
 			}
 
 			return nil
-		})
+		}
 	}
 
 	aerr := agg.Aggregate(actx, core.Duty{Slot: slot, Type: g.Duty}, set)
@@ -466,8 +559,9 @@ func (e *env) run(spec CaseSpec) Case {
 		}
 		calls = append(calls, "["+strings.Join(objs, "; ")+"]")
 	}
-	c.Label = fmt.Sprintf("mkl %d%%nat [%s] [%s] %d %s [%s]", spec.T, strings.Join(valTerms, "; "), strings.Join(subs, "; "), spec.Cancel, errTerm, strings.Join(calls, "; "))
-	c.NonTrivial = len(spec.Corrupt) > 0 || spec.Cancel > 0
+	c.Label = fmt.Sprintf("mkl %d%%nat [%s] [%s] %d (%d, %d) [%s] %s [%s]", spec.T, strings.Join(valTerms, "; "), strings.Join(subs, "; "), spec.Cancel,
+		e.typeID(spec.Type), epoch, strings.Join(hist, "; "), errTerm, strings.Join(calls, "; "))
+	c.NonTrivial = len(spec.Corrupt) > 0 || spec.Cancel > 0 || spec.Seq > 0
 
 	return c
 }
@@ -682,6 +776,35 @@ func (e *env) genCases(total int) []CaseSpec {
 			}
 		}
 	}
+	// long-lived aggregator + verifier over a sequence of calls of one duty type at epochs in
+	// different forks of the beacon mock (Electra at 2048, Fulu at 50688), both orders: objects signed
+	// for their own epoch's domain (must publish) and with the other fork's domain (must fail)
+	seq := 0
+	for _, name := range e.names {
+		for _, pair := range [][2]uint64{{100, 3000}, {3000, 100}, {3000, 60000}, {60000, 3000}} {
+			if total < 3000 && pair[0]+pair[1] > 60000 && r.Intn(4) != 0 {
+				continue
+			}
+			seq++
+			n, th := 4, 3
+			call := func(ep, forkEp uint64, what string) {
+				ps := validParts(0, subset(r, n, th+r.Intn(n-th+1)))
+				for i := range ps {
+					ps[i].ForkEpoch = forkEp
+				}
+				c := CaseSpec{Kind: "sequence", Type: name, T: th, N: n, Epoch: ep, Seq: seq, Vals: []ValSpec{{V: 0, Parts: ps}}}
+				if forkEp != 0 {
+					c.Corrupt = []string{what}
+				}
+				add(c)
+			}
+			call(pair[0], 0, "")
+			call(pair[1], pair[0], "other_fork_domain_of_previous_call")
+			call(pair[1], 0, "")
+			call(pair[0], pair[1], "other_fork_domain_of_previous_call")
+			call(pair[0], 0, "")
+		}
+	}
 	// random: multi-validator, several corruptions, subscriber behaviours
 	for len(out) < total {
 		name := e.names[r.Intn(len(e.names))]
@@ -728,13 +851,23 @@ func (e *env) genCases(total int) []CaseSpec {
 
 func TestGen(t *testing.T) {
 	e := newEnv(t)
-	var replay CaseSpec
+	var replay struct {
+		CaseSpec
+		SeqSpecs []CaseSpec `json:"seq_specs"` // the whole sequence up to and including the failing call
+	}
 	if ok, err := hx.ReadReplay(&replay); ok {
 		if err != nil {
 			t.Fatal(err)
 		}
-		c := e.run(replay)
-		if err := hx.WriteJSON("sigagg_cases.json", []Case{c}); err != nil {
+		specs := replay.SeqSpecs
+		if len(specs) == 0 {
+			specs = []CaseSpec{replay.CaseSpec}
+		}
+		var cs []Case
+		for _, s := range specs {
+			cs = append(cs, e.run(s))
+		}
+		if err := hx.WriteJSON("sigagg_cases.json", cs); err != nil {
 			t.Fatal(err)
 		}
 
